@@ -96,6 +96,64 @@ def ef2(facts, rep):
     rep.floor(rule, 'non-traceback entry points (2 instantiations)', n, 6)
 
 
+PO5_AUDIT = {
+    'pattern_matching::myers::helpers::word_size|overflow-mul|mem::size_of(),8': 'size_of of a machine word type (<= 16) times 8',
+    'pattern_matching::myers::helpers::ceil_div|remzero|arg1': 'callers pass y = word_size::<T>() >= 8',
+    'pattern_matching::myers::helpers::ceil_div|overflow-add|Div(arg1,arg2),1': 'x / y + 1 <= x for y >= 2 (word size >= 8)',
+    'pattern_matching::myers::long::States::<T>::new|overflow-sub|helpers::ceil_div(arg1,x0),1':
+        'm >= 1 is asserted by Myers::new (non-empty pattern), so ceil_div(m, w) >= 1',
+    'pattern_matching::myers::long::States::<T>::new|remzero|arg1': 'w = word_size::<T>() >= 8',
+    'pattern_matching::myers::long::States::<T>::add_state|unwrap|unwrap(ToPrimitive>::to_usize(num::wrapping_add(num::wrapping_add(x0,x1),arg2)))<usize>':
+        'usize::to_usize is the identity and always Some',
+    'pattern_matching::myers::long::States::<T>::step|overflow-sub|Vec::len(arg1.states),1':
+        'States::new adds at least one block (min_blocks >= 1) and step truncates to last_block + 1 >= 1',
+    'pattern_matching::myers::long::States::<T>::step|index|index(arg1.states,x0)<std::vec::Vec<pattern_matching::myers::myers_impl::State<T, usize>>>':
+        'last_block < states.len(): it starts at len - 1, is incremented only together with add_state and decremented only while > 0',
+    'pattern_matching::myers::long::States::<T>::step|overflow-sub|x0,x1':
+        'isize difference of a block distance (<= pattern length + text position) and a carry in {-1,0,1}',
+    'pattern_matching::myers::long::States::<T>::step|bounds|idx=Add(x0,1).0,len=PtrMetadata(arg3)':
+        'guarded by last_block < self.max_block and peq has max_block + 1 entries (one per block)',
+    'pattern_matching::myers::long::States::<T>::step|overflow_neg|x0': 'carry is in {-1, 0, 1}',
+    'pattern_matching::myers::long::States::<T>::step|index|index_mut(arg1.states,x0)<std::vec::Vec<pattern_matching::myers::myers_impl::State<T, usize>>>':
+        'add_state just pushed block last_block',
+    'pattern_matching::myers::long::States::<T>::step|bounds|idx=x0,len=PtrMetadata(arg3)':
+        'last_block <= max_block after the increment, peq has max_block + 1 entries',
+}
+
+
+def po5(facts, rep):
+    from . import eng_po
+    rule = 'PO-5'
+    rep.rule(rule, 'panic / word-width obligations of the block-based Myers column update (long::States::{new,add_state,step}, '
+                   'advance_block, helpers::{ceil_div,word_size}): every MIR Assert and may-panic call is discharged by interval '
+                   'analysis or audited; in particular arithmetic on the caller-supplied max_dist must not overflow, because '
+                   'distance()/find_best_end() pass the maximum of the distance type')
+    total = 0
+    bodies = [b for b in facts.body_list if b.path.startswith(('pattern_matching::myers::long::States::<T>::',
+                                                               'pattern_matching::myers::long::advance_block',
+                                                               'pattern_matching::myers::helpers::ceil_div',
+                                                               'pattern_matching::myers::helpers::word_size'))]
+    rep.floor(rule, 'bodies', len(bodies), 5)
+    for b in bodies:
+        rep.analysed_body(b)
+        ia = eng_po.Intervals(b, facts).run()
+        seen = {}
+        for o in eng_po.obligations(b, ia):
+            total += 1
+            key = '%s|%s|%s' % (b.path, o['kind'], o['ops'])
+            seen[key] = seen.get(key, 0) + 1
+            k2 = key + ('#%d' % seen[key] if seen[key] > 1 else '')
+            if o['discharged']:
+                rep.ok(rule, k2, o['where'], 'interval analysis')
+            elif key in PO5_AUDIT:
+                rep.audited(rule, k2, o['where'], PO5_AUDIT[key])
+            else:
+                rep.bad(rule, key, o['where'], 'undischarged %s obligation: %s' % (o['kind'], o['detail']))
+    rep.floor(rule, 'obligations', total, 15)
+
+
 def run(facts, rep, ctx):
     ri3(facts, rep)
     ef2(facts, rep)
+    if ctx.get('flavor') != 'nochk':
+        po5(facts, rep)
